@@ -21,6 +21,11 @@ func (c *Input) Forward(xs ...tensor.Tensor) (y tensor.Tensor, err error) {
 		return
 	}
 
+	if c.SeedFunc == nil {
+		err = fmt.Errorf("Input seed function validation failed: expected 'SeedFunc' not to be nil")
+		return
+	}
+
 	return c.SeedFunc(), nil
 }
 
